@@ -5,7 +5,7 @@ baseline tests still pass with it, demo fails with it.  On success copies patch.
 (+ what was run) to /verif/seeded/<Cxx><x>/."""
 import json, os, shutil, subprocess, sys
 prop, x = sys.argv[1], sys.argv[2]
-src = f'/tmp/seedout/{prop}/{x}'
+src = f"{os.environ.get('SEEDOUT', '/tmp/seedout')}/{prop}/{x}"
 d = f'/tmp/confirm/{prop}{x}'
 shutil.rmtree(d, ignore_errors=True)
 os.makedirs('/tmp/confirm', exist_ok=True)
